@@ -337,6 +337,16 @@ impl EngA {
                         }
                     },
                 };
+                // history independence: parsing the same text again, after all the satisfies calls,
+                // gives the same value and the same answers
+                if let Ok(Ok(r2)) = guarded(|| Range::parse(&text)) {
+                    let k2 = bound_key(&r2.verif_bounds());
+                    let n = self.u.len();
+                    let probe_ok = [0usize, n / 2, n - 1].iter().all(|&i| guarded(|| r2.satisfies(&self.u.vs[i])).map(|x| x == sat.get(i)).unwrap_or(false));
+                    if k2 != key || !probe_ok {
+                        sink.report("history", format!("text={}", text), self.case(prog, devs), format!("first parse {} later parse {} (same answers: {})", key, k2, probe_ok), "the same value and answers for the same text".into());
+                    }
+                }
                 let diff = Bits(sat.0.iter().zip(&strict.0).zip(&care.0).map(|((a, b), m)| (a ^ b) & m).collect());
                 if let Some(i) = diff.first() {
                     let v = &self.u.vs[i];
